@@ -202,6 +202,15 @@ func enumerate(quick bool, emit func(scenario)) {
 				}
 			}
 		}
+		// H: a lazy list captured by the parallel mapper: the only other object two workers of ONE
+		// evaluation can share (its lazy materialisation is hooked at field granularity, rule R4)
+		for _, t := range []terminal{terminals[0], terminals[3]} {
+			for _, n := range []int{13, 14} {
+				emit(scenario{Family: "H:captured-lazy-list", Src: "let big=numbers(n-10).map(e->e+1);" + app(t.tmpl, "numbers(n).map(x->slow(x)+(if x>11 then big.size() else 0))"), N: n, W: w})
+				emit(scenario{Family: "H:captured-lazy-list", Src: "let big=numbers(n-10).map(e->e+1);" + app(t.tmpl, "numbers(n).map(x->slow(x)+(if x>11 then big.sum()+big.size() else 0))"), N: n, W: w})
+				emit(scenario{Family: "H:captured-lazy-list", Src: "let big=numbers(n-10).map(e->e+1).eval();" + app(t.tmpl, "numbers(n).map(x->slow(x)+big.size())"), N: n, W: w})
+			}
+		}
 		// G: two nested parallel stages
 		if !quick {
 			for _, t := range []terminal{terminals[0], terminals[1], terminals[3]} {
@@ -364,6 +373,9 @@ func classifyRace(race string) string {
 		return (strings.Contains(s, "iterator.Merge") || strings.Contains(s, "(*List).Merge")) && !strings.Contains(s, "iterator.ToChan")
 	}
 	switch {
+	case !onStack && strings.Contains(first, "(*List).Eval"):
+		// unsynchronised lazy materialisation of a list shared by two workers (same root cause as C11's F11)
+		return "F11-lazy-constant-materialisation-race"
 	case onStack && ((collector(cur) && upstreamMain(prev)) || (collector(prev) && upstreamMain(cur))):
 		return "F06a-shared-stack-upstream-downstream"
 	case onStack && ((toChan(cur) && (toChan(prev) || mergeMain(prev))) || (toChan(prev) && mergeMain(cur))):
